@@ -17,6 +17,9 @@ def run_property(pid: str, tier: str, repo: Repo, quiet: bool = False) -> Check:
     ck = Check(pid, tier, repo, explanation=getattr(mod, "EXPLANATION", ""), trusted=getattr(mod, "TRUSTED", []), quiet=quiet)
     for rid, text in getattr(mod, "RULES", {}).items():
         ck.rule(rid, text)
+    if getattr(repo, "specialised", None):
+        # options added after the reference signatures were recorded: the routines are read with these parameters at their defaults
+        ck.extra["options_read_at_their_defaults"] = [f"{q}({p}={d})" for q, p, d in repo.specialised[:80]]
     try:
         mod.run(ck, repo, tier)
     except AnalysisError as e:
